@@ -8,7 +8,7 @@ Helper lemmas for C15: the four frame-length predictors of the model, written as
 "classify the function-code byte, then interpret the rule", and the classification compared
 with the specification's table for each of the 256 function codes.
 -/
-namespace Modbus
+namespace Modbus.Predict
 open Spec
 
 /-- a specified prediction as a model result; `e` is the error reported for a rejected code -/
@@ -270,4 +270,4 @@ theorem ruleRes_ne_panic (adu : Bytes) (h : Nat) (fc : UInt8) (r : LenRule) :
     simp only [ruleRes]; cases adu[h + off]? <;> cases adu[h + off + 1]? <;> simp
   | unknown => simp [ruleRes]
 
-end Modbus
+end Modbus.Predict
